@@ -22,7 +22,7 @@ def check(prog, ctx):
              'about the distance to the sign change', 1)
     fn = prog.fn(L + 'Find_Root')
     names = [p['name'] for p in fn.params]
-    sx = Symx(prog, fn)
+    sx = Symx(prog, fn, inline={L + 'Floats_Equal', L + 'Relative_Difference'})
     outs = sx.run()
     xL, xR, acc = [sx.symbol(n, 'double') for n in names[1:4]]
     F = lambda t: Function('F:' + names[0], real=True)(t)
@@ -228,7 +228,7 @@ def check(prog, ctx):
         return out
     FLOOR_MAX = 5e-15
 
-    def acc_bound(rhs):
+    def acc_bound(rhs, conds=()):
         """None if `rhs` is not the accuracy; else the list of floor terms f in a bound max(xAccuracy, f, ...).  A floor that is a
         small multiple of the magnitude of the points (the spacing of doubles there) lies below every accuracy the property
         quantifies over (xAccuracy >= 1e-14 |root|), so max(xAccuracy, floor) IS xAccuracy on that domain."""
@@ -236,6 +236,9 @@ def check(prog, ctx):
             return []
         if isinstance(rhs, sp.Max) and acc in rhs.args:
             return [a_ for a_ in rhs.args if a_ != acc]
+        # the maximum written with an if: on this path the bound is the floor because the floor is not below the accuracy
+        if isinstance(rhs, sp.Basic) and any(c_ in (sp.Ge(rhs, acc), sp.Le(acc, rhs), sp.Gt(rhs, acc), sp.Lt(acc, rhs)) for c_ in conds):
+            return [rhs]
         return None
 
     def floor_verdict(f_, points):
@@ -248,7 +251,7 @@ def check(prog, ctx):
         if not c_.is_number or c_ <= 0:
             return 'unknown'
         return 'ok' if float(c_) <= FLOOR_MAX else 'large'
-    acc_rets = [o for o in rets if any(isinstance(c_, (sp.Lt, sp.Le)) and acc_bound(c_.rhs) is not None for c_ in flat(o.state.conds[n0:]))]
+    acc_rets = [o for o in rets if any(isinstance(c_, (sp.Lt, sp.Le)) and acc_bound(c_.rhs, flat(o.state.conds[n0:])) is not None for c_ in flat(o.state.conds[n0:]))]
     ctx.decide('C02.e', 'stopping-test', fn, bool(acc_rets) and zero_ret, 'the loop returns on a distance test against xAccuracy and on an exact zero f(x4) == 0 (returning x4)',
                'stopping test not recognised (returning paths that compare a distance with xAccuracy: %d, exact-zero return ok=%s)' % (len(acc_rets), zero_ret))
     # ---- C02.f what the accepting test certifies
@@ -288,9 +291,9 @@ def check(prog, ctx):
     certified_all = bool(acc_rets)
     for n_, o in enumerate(acc_rets):
         inst = 'accuracy-certificate' if len(acc_rets) == 1 else 'accuracy-certificate#%d' % n_
-        tests = [c_ for c_ in flat(o.state.conds[n0:]) if isinstance(c_, (sp.Lt, sp.Le)) and acc_bound(c_.rhs) is not None]
+        tests = [c_ for c_ in flat(o.state.conds[n0:]) if isinstance(c_, (sp.Lt, sp.Le)) and acc_bound(c_.rhs, flat(o.state.conds[n0:])) is not None]
         b1, b2 = bracket_of(o.state)
-        floors = [(f_, floor_verdict(f_, [x1, x2, x3, x4, b1, b2, xL, xR])) for c_ in tests for f_ in acc_bound(c_.rhs)]
+        floors = [(f_, floor_verdict(f_, [x1, x2, x3, x4, b1, b2, xL, xR])) for c_ in tests for f_ in acc_bound(c_.rhs, flat(o.state.conds[n0:]))]
         if any(v_ == 'large' for f_, v_ in floors):
             certified_all = False
             big = [f_ for f_, v_ in floors if v_ == 'large'][0]
@@ -333,6 +336,35 @@ def check(prog, ctx):
                                   'test': str(tests[0]) if tests else None}, line=loop['l'])
         else:
             ctx.undecided('C02.f', inst, fn, 'accepting test %s: neither a bound on the maintained bracket nor a comparison of successive iterates' % [str(t_)[:120] for t_ in tests], line=loop['l'])
+    # ---- every other returning path of the loop (not the exact zero, no comparison with the accuracy)
+    zero_paths = [o for o in rets if o.state.conds[n0:] and isinstance(o.state.conds[-1], sp.Equality) and o.state.conds[-1].rhs == 0]
+    others = [o for o in rets if o not in acc_rets and o not in zero_paths]
+    for n_, o in enumerate(others):
+        inst = 'other-accept#%d' % n_
+        tests = []
+        for c_ in flat(o.state.conds[n0:]):
+            if isinstance(c_, sp.Basic):
+                tests += [r_ for r_ in c_.atoms(sp.core.relational.Relational) if isinstance(r_, (sp.Lt, sp.Le, sp.Gt, sp.Ge))]
+        b1, b2 = bracket_of(o.state)
+        # a relative test of the bracket width: |b1 - b2| (possibly divided by a magnitude of the ends) against a numeric tolerance
+        rel = None
+        for c_ in tests:
+            small, big = (c_.lhs, c_.rhs) if isinstance(c_, (sp.Lt, sp.Le)) else (c_.rhs, c_.lhs)
+            if big.is_number and isinstance(b1, sp.Basic) and isinstance(b2, sp.Basic):
+                for cand in [small] + ([e_ for e_, _c in small.args] if isinstance(small, sp.Piecewise) else []):
+                    num_, den_ = sp.fraction(cand)
+                    if num_zero(num_ - sp.Abs(b1 - b2)) or num_zero(num_ - sp.Abs(x1 - x2)):
+                        rel = (float(big), str(den_)[:60])
+        certified_all = False
+        if rel is not None and rel[0] > FLOOR_MAX:
+            ctx.violated('C02.f', inst, fn, 'a path returns %s when the bracket is narrower than %g relative to %s, without any comparison with xAccuracy: for a requested '
+                         'accuracy below that tolerance a bracket wider than the accuracy is accepted' % (str(o.value)[:30], rel[0], rel[1]),
+                         witness={'tolerance': rel[0], 'reproducer': 'Find_Root(atan(1e6 (x-1)), 0, 3, 1e-13): the returned point is further than 1e-13 from 1'}, line=loop['l'])
+        elif rel is not None:
+            ctx.holds('C02.f', inst, fn, 'a path accepts a bracket of relative width below %g (the spacing of doubles), below every accuracy the property quantifies over' % rel[0], line=loop['l'])
+        else:
+            ctx.undecided('C02.f', inst, fn, 'a returning path of the iteration neither hits an exact zero nor compares anything with xAccuracy: %s'
+                          % [str(c_)[:100] for c_ in flat(o.state.conds[n0:])][-2:], line=loop['l'])
     # ---- C02.e stopping
     okres = False
     detail = 'previous-iterate variable not found'
